@@ -92,6 +92,20 @@ Theorem C15_counter : forall (A : Type) (r0 : A) (radd rmul : A -> A -> A) (norm
 Proof. exact counter. Qed.
 Print Assumptions C15_counter.
 
+(* the three iterative wrappers (single gmres, cg, blocked gmres) hand their return_residuals flag to the callback (read off
+   the current source: store_flags), hence for all four combinations of return_residuals x return_iteration_count and every
+   sequence of SciPy callbacks: a residual list is returned iff requested and has exactly one entry per iteration; the count is
+   returned iff requested and is the number of callbacks *)
+Theorem C15_wrapper_flags : forall (A : Type) (r0 : A) (radd rmul : A -> A -> A) (norm : M A -> A) (msub : M A -> M A -> M A),
+  map fst store_flags = ["_gmres_single_op_imp"; "cg"; "_gmres_block_op_imp"]%string /\
+  forall (w flag : string), In (w, flag) store_flags ->
+  forall (rr ric is_cg : bool) (op rhs : M A) (xs : list (M A)),
+  wrapper_out A r0 radd rmul norm msub IC flag rr ric is_cg op rhs xs =
+  (if rr then Some (map (fun x => norm (if is_cg then msub rhs (mmul A r0 radd rmul op x) else x)) xs) else None,
+   if ric then Some (List.length xs) else None).
+Proof. exact (fun A r0 radd rmul norm msub => conj wrappers_listed (wrapper_flags A r0 radd rmul norm msub)). Qed.
+Print Assumptions C15_wrapper_flags.
+
 (* blocked lu / gmres: every branch (weak, strong, direct) cuts the solution vector by A.domain_spaces and takes the
    right-hand side of the weak systems with respect to A.dual_to_range_spaces (read off the current source) *)
 Theorem C15_blocked_space_lists :
